@@ -152,6 +152,38 @@ def matrix_delay_case(opts):
     return txt, None
 
 
+def hidden_symbol_case(opts):
+    """a delayed loop expression over a[2:3] whose graph, after vector expansion, still mentions a[1]; alias detection then removes
+    a[1] (= x[1]): the delay-argument function must still be buildable and give 3 * a[i] * eps"""
+    from pymoca.backends.casadi.api import transfer_model
+    txt = ("model M Real x[3]; Real y[3]; Real a[3]; input Real z[3]; parameter Real tau = 2.0; parameter Real eps = 0.5; equation "
+           "for i in 2:3 loop x[i] = 5 * z[i] * eps; y[i] = delay(3 * a[i] * eps, tau); end for; "
+           "x[1] = 2 * z[1]; y[1] = 0; a[1] = x[1]; a[2] = x[2] * x[2]; a[3] = x[3] * x[3]; end M;")
+    with tempfile.TemporaryDirectory() as tmp:
+        with open(os.path.join(tmp, "M.mo"), "w") as f:
+            f.write(txt)
+        m = transfer_model(tmp, "M", dict(opts))
+    try:
+        f = m.delay_arguments_function
+    except BaseException as e:  # noqa
+        return txt, "delay_arguments_function cannot be built with options %s: %s: %s" % (opts, type(e).__name__, str(e).replace("\n", " ")[-160:])
+    rng = np.random.RandomState(7)
+    args = [rng.uniform(0.5, 2.0, size=(f.size1_in(i), f.size2_in(i))) for i in range(f.n_in())]
+    res = f(*args)
+    res = list(res) if isinstance(res, (list, tuple)) else [res]
+    env = {}
+    for lst, val in zip([[v.symbol.name() for v in getattr(m, c)] for c in ("states", "der_states", "alg_states", "inputs", "constants", "parameters")], args[1:]):
+        for n_, v in zip(lst, np.array(val).reshape(-1, order="F")):
+            env[n_] = float(v)
+    if len(res) != 2 * len(m.delay_states):
+        return txt, "%d outputs for %d delay states" % (len(res), len(m.delay_states))
+    for k, ds in enumerate(m.delay_states):
+        got_d = float(np.array(res[2 * k + 1]).reshape(-1)[0])
+        if abs(got_d - env.get("tau", 2.0)) > 1e-9:
+            return txt, "delay state %s has duration %r instead of tau" % (ds, got_d)
+    return txt, None
+
+
 def main():
     payload = json.load(sys.stdin)
     tier = payload.get("tier", "quick")
@@ -188,6 +220,14 @@ def main():
             txt, bad = "matrix delay model", "%s: %s" % (type(e).__name__, str(e)[-200:])
         if bad:
             failures.append({"class": "delay", "input": txt, "observed": bad, "expected": "each element's delay state paired with that element of the delayed expression"})
+    for o in ({"expand_vectors": True, "detect_aliases": True}, {"expand_vectors": True, "detect_aliases": True, "expand_mx": True}):
+        n += 1
+        try:
+            txt, bad = hidden_symbol_case(o)
+        except BaseException as e:  # noqa
+            txt, bad = "hidden symbol model", "%s: %s" % (type(e).__name__, str(e)[-200:])
+        if bad:
+            failures.append({"class": "delay", "input": txt, "observed": bad, "expected": "a delay-argument function over the symbols of the simplified model"})
     for durs, loop, opts in cases:
         n += 1
         txt, (verdict, info), m = run(durs, loop, opts)
@@ -211,7 +251,7 @@ def main():
                 break
     if payload.get("mode") == "bounded":
         print(json.dumps({"performed": True, "cases": n, "distinct_nontrivial": n, "failures": failures,
-                          "rule": "delay durations drawn from each category (literal, constant, parameter, fixed input | time, state, derivative, algebraic, non-fixed input, mixtures), one to three delays in both orders, inside and outside a for-loop, with replace_constant_values, and compound durations over constants / aliased inputs under replace_*_values and detect_aliases: the real transfer_model must reject exactly the disallowed ones; for accepted models delay_arguments_function is evaluated at a random point; a delayed 2-D array expression under expand_vectors (element-wise pairing); a for-loop with an indexed and a loop-invariant delay in both orders: every delay state paired with its own expression and duration",
+                          "rule": "delay durations drawn from each category (literal, constant, parameter, fixed input | time, state, derivative, algebraic, non-fixed input, mixtures), one to three delays in both orders, inside and outside a for-loop, with replace_constant_values, and compound durations over constants / aliased inputs under replace_*_values and detect_aliases: the real transfer_model must reject exactly the disallowed ones; for accepted models delay_arguments_function is evaluated at a random point; a delayed 2-D array expression under expand_vectors (element-wise pairing); a delayed loop expression whose graph mentions an element that alias detection removes; a for-loop with an indexed and a loop-invariant delay in both orders: every delay state paired with its own expression and duration",
                           "bound": "%d models" % n}))
     else:
         f = failures[0] if failures else None
